@@ -1249,9 +1249,81 @@ def thread_bool_temps(c, max_region=30):
     return n
 
 
+def align_params(data):
+    """A16: a known private function whose parameters were reordered, or that lost its `self` (method -> associated function),
+    is brought back to the parameter order the rule tables were confirmed with (vlib/frozen_params.json): the parameter
+    locals are renumbered in its body and the arguments permuted (a unit constant for a dropped `self`) at every call
+    site.  Only when the actual parameter names are exactly the frozen ones, possibly without `self`, in another order;
+    anything else (a new or renamed-and-moved parameter) is left as it is."""
+    from .facts import frozen_params
+    fz_all = frozen_params()
+    done = {}
+    for d in data["functions"]:
+        fz = fz_all.get(d["key"])
+        if not fz or d.get("derived") or d.get("kind") not in ("fn", "assoc") or d.get("vis") == "pub":
+            continue
+        argc = d["arg_count"]
+        actual = {}
+        for n in d["names"]:
+            pl = n["place"]
+            if not pl["p"] and 1 <= pl["l"] <= argc:
+                actual.setdefault(pl["l"], n["name"])
+        names = [actual.get(i) for i in range(1, argc + 1)]
+        if None in names or len(set(names)) != len(names) or names == fz:
+            continue
+        missing = [x for x in fz if x not in names]
+        if set(names) - set(fz) or missing not in ([], ["self"]) or len(set(fz)) != len(fz):
+            continue
+        if not missing and len(fz) != argc:
+            continue
+        new_of = {i + 1: fz.index(nm) + 1 for i, nm in enumerate(names)}      # old parameter local -> new parameter local
+        shift = len(fz) - argc                                                 # (1 when `self` is re-inserted)
+
+        def lm(l, new_of=new_of, argc=argc, shift=shift):
+            if 1 <= l <= argc:
+                return new_of[l]
+            return l + shift if l > argc else l
+        for b in d["blocks"]:
+            _map_block(b, lm, lambda x: x, lambda c: None)
+        for n in d["names"]:
+            _map_place(n["place"], lm)
+        old_locals = d["locals"]
+        new_locals = [None] * (len(old_locals) + shift)
+        for l, ty in enumerate(old_locals):
+            new_locals[lm(l)] = ty
+        for i in range(len(new_locals)):
+            if new_locals[i] is None:
+                new_locals[i] = {"s": "()"}                                    # the dropped `self`: never mentioned in the body
+        d["locals"] = new_locals
+        d["arg_count"] = len(fz)
+        done[d["key"]] = (new_of, len(fz), argc)
+    if not done:
+        return []
+    for d in data["functions"]:
+        for b in d["blocks"]:
+            t = b["term"]
+            if t["k"] not in ("call", "tailcall") or t["callee"].get("key") not in done or not t["callee"].get("local"):
+                continue
+            new_of, n_new, argc = done[t["callee"]["key"]]
+            if len(t["args"]) != argc:
+                continue
+            args = [{"k": "const", "ty": "()", "ck": "zst_or_other", "text": "()"} for _ in range(n_new)]
+            ins = [{"s": "()"} for _ in range(n_new)]
+            old_ins = t["callee"].get("inputs") or []
+            for i, a in enumerate(t["args"]):
+                args[new_of[i + 1] - 1] = a
+                if i < len(old_ins):
+                    ins[new_of[i + 1] - 1] = old_ins[i]
+            t["args"] = args
+            if old_ins:
+                t["callee"]["inputs"] = ins
+    return sorted(done)
+
+
 def normalise(data, known_keys):
     """splice new private helpers of data['functions'] into their callers; returns a report dict"""
     renamed = match_renames(data, known_keys)
+    aligned = align_params(data)
     inl = Inliner(data["functions"], known_keys)
     removed = inl.run()
     hofs = Desugarer(inl).run()
@@ -1272,4 +1344,4 @@ def normalise(data, known_keys):
     rep = {}
     for h, c, line in inl.report:
         rep.setdefault(h, []).append("%s:%d" % (c, line))
-    return {"spliced": rep, "removed": removed, "loops": ["%s in %s:%d" % h for h in hofs], "threaded": threaded, "renamed": renamed}
+    return {"spliced": rep, "removed": removed, "loops": ["%s in %s:%d" % h for h in hofs], "threaded": threaded, "renamed": renamed, "aligned": aligned}
